@@ -70,7 +70,8 @@ package kernel
 //@   property C11
 //@   requires RecsOK(node)
 //@   modifies nothing
-//@   ensures [elems] forall k int :: {result[k]} 0 <= k && k < len(result) ==> result[k] != nil && fresh(result[k])
+//@   ensures [elems] forall k int :: {result[k]} 0 <= k && k < len(result) ==> result[k] != nil && fresh(result[k]) && allocated(result[k])
+//@   ensures [block] len(result) == 0 || (fresh(result) && allocated(result))
 //@   ensures [latest] forall k int :: {result[k]} 0 <= k && k < len(result) ==>
 //@       FromLatest(result[k], node.allNodesSortedWithState, threshold)
 //@   ensures [accepted-only] acceptedOnly ==> forall k int :: {result[k]} 0 <= k && k < len(result) ==> result[k].State == common.NodeStateAccepted
@@ -99,3 +100,28 @@ package kernel
 //@   loop 2 invariant [count] 0 <= i && i <= len(nodes) && 0 <= index && index <= i && index == CountActive(nodes, i)
 //@   loop 2 invariant [unfold] CountActive(nodes, i + 1) == CountActive(nodes, i) + (i >= 0 && Active(nodes[i].State) ? 1 : 0)
 //@   loop 2 invariant [assigned] forall k int :: {nodes[k]} 0 <= k && k < i ==> nodes[k].ConsensusIndex == CountActive(nodes, k)
+
+//@ -- IsView(node, l, th, acc): l is the view nodeSequenceWithoutState(th, acc) computes — the conjunction of its postconditions
+//@ spec IsView(node *Node, l []*CNode, th uint64, acc bool) bool =
+//@     (forall k int :: {l[k]} 0 <= k && k < len(l) ==> l[k] != nil && allocated(l[k]) && !(l[k] == nil) &&
+//@        FromLatest(l[k], node.allNodesSortedWithState, th) && (acc ==> l[k].State == common.NodeStateAccepted) && l[k].ConsensusIndex == CountActive(l, k)) &&
+//@     (forall a, b int :: {l[a], l[b]} 0 <= a && a < b && b < len(l) ==> l[a].IdForNetwork != l[b].IdForNetwork && Before(l[a], l[b]))
+
+//@ -- one cached sequence per record: sequence k is the view at records[k].Timestamp + 1 (i.e. including record k), in record order
+//@ func (node *Node) buildNodeStateSequences(all, acceptedOnly)
+//@   property C11
+//@   requires RecsOK(node) && !fresh(all)
+//@   requires forall i int :: {all[i]} 0 <= i && i < len(all) ==> all[i] != nil && !fresh(all[i])
+//@   modifies nothing
+//@   ensures [len] len(result) == len(all) && (len(result) == 0 || fresh(result))
+//@   ensures [seqs] forall k int :: {result[k]} 0 <= k && k < len(result) ==> result[k] != nil && fresh(result[k]) && result[k].Timestamp == all[k].Timestamp
+//@   ensures [views] forall k int :: {result[k]} 0 <= k && k < len(result) ==>
+//@       IsView(node, result[k].NodesWithoutState, U64(all[k].Timestamp + 1), acceptedOnly)
+//@   ensures [ordered] (forall a, b int :: {all[a], all[b]} 0 <= a && a < b && b < len(all) ==> all[a].Timestamp <= all[b].Timestamp) ==>
+//@       (forall a, b int :: {result[a], result[b]} 0 <= a && a < b && b < len(result) ==> result[a].Timestamp <= result[b].Timestamp)
+//@   loop 0 invariant [recs] RecsOK(node)
+//@   loop 0 invariant [len] len(nodeStateSequences) == len(all) && (len(all) == 0 || fresh(nodeStateSequences))
+//@   loop 0 invariant [seqs] forall k int :: {nodeStateSequences[k]} 0 <= k && k <= rangeindex ==> nodeStateSequences[k] != nil && fresh(nodeStateSequences[k]) &&
+//@       allocated(nodeStateSequences[k]) && nodeStateSequences[k].Timestamp == all[k].Timestamp
+//@   loop 0 invariant [views] forall k int :: {nodeStateSequences[k]} 0 <= k && k <= rangeindex ==>
+//@       IsView(node, nodeStateSequences[k].NodesWithoutState, U64(all[k].Timestamp + 1), acceptedOnly)
